@@ -105,7 +105,7 @@ META = {
         'text': 'Theorems over the Core reference evaluator, one per syntactic position of the property (operands, short-cut right operand, prefix operand, assigned value, condition, branches, range bounds, elements and unpacked elements, '
                 'arguments, unpacked arguments, keyword arguments, receiver, chain argument, callee, pair keys and values, ** parts, embedded-string parts, default values, statements, returned values, body of a called function): if the '
                 'sub-evaluation raises (kind, message) reaching state s\' then the enclosing construct raises the same (kind, message) and ends in exactly s\' - nothing later is evaluated. The statements chain through any nesting depth '
-                '(nested_example); pending defers run first; a ~ chain is the handler. Tied to the implementation by injecting a raise at every expression position of generated programs, with a model-free fail-stop oracle and the reference evaluator.',
+                '(nested_example); pending defers run first; a ~ chain is the handler. Tied to the implementation by injecting a raise at every expression position of generated programs, with a model-free fail-stop oracle and the reference evaluator, and by an inventory regenerated from evaluator/*.go: the evaluation results never tested for an error are exactly the reviewed ones.',
         'note': PROOF_NOTE + 'the model is the Core reference evaluator (a transcription of the evaluator for a sub-language); programs reach it through the real parser; built-ins outside the modelled set make a case unsupported. ',
         'technique': 'Lean 4 proof (per-position strictness lemmas composing through nesting) + fault injection at every expression position with a model-free oracle and a reference-evaluator differential',
     },
